@@ -362,3 +362,4 @@ def run(chk, repo):
            "is skipped for a device without terminals, whose variables then "
            "stay private to each process")
 EXPLANATION += (' Added after wave 8: (R29.7) every normal way through DeviceVar.__set__ / ArrayGlobalVarDesc.__set__ passes a store.')
+EXPLANATION += (' Added after wave 9: (R29.8) the map route of DeviceVar is taken for exactly the program-like sync group classes.')
